@@ -1534,7 +1534,7 @@ for scope in ['local', 'global']:
                 if value is None:
                     value = CellValue(
                         _type, _type.py_type(default_value))
-                    self.write_var(scope, idx, value)
+                    self.write_var(scope, var + idx, value)
                 self.push(value.type, value.value)
             method.__name__ = attr
             return method
